@@ -75,6 +75,31 @@ class Owner(A):
     pass
 
 
+class OwnerSub(Owner):
+    """an instance of a SUBCLASS of the receiver's class (This accepts it)"""
+
+
+class StrRaises:
+    def __str__(self):
+        raise RuntimeError("__str__ raises")
+
+    __repr__ = object.__repr__
+
+
+class BoolRaises:
+    def __bool__(self):
+        raise RuntimeError("__bool__ raises")
+
+
+class BytesRaises:
+    def __bytes__(self):
+        raise OverflowError("__bytes__ raises")
+
+
+class FwdFoo:
+    """named by a forward reference: Instance("FwdFoo")"""
+
+
 def fn_sample(x=None):
     return x
 
@@ -217,6 +242,16 @@ def mk_value(ex, kind, tag="v"):
         return U()
     if kind == "instOwner":
         return Owner()
+    if kind == "instOwnerSub":
+        return OwnerSub()
+    if kind == "strraises":
+        return StrRaises()
+    if kind == "boolraises":
+        return BoolRaises()
+    if kind == "bytesraises":
+        return BytesRaises()
+    if kind == "int1e30":
+        return 10 ** 30
     if kind == "src_ok":
         return Src(ok=True)
     if kind == "src_no":
@@ -341,7 +376,7 @@ def cfg_tuple(*types):
 
 FLOATISH = ["none", "bool", "float", "floatsub", "complex", "complexsub", "floatobj", "complexobj", "npfloat", "npbool"]
 INTISH = ["bool", "int64", "intsub64", "inthuge", "indexobj", "indexfloatobj", "npint"]
-TYPEONLY = {"CStr", "CBytes"}
+TYPEONLY = {"CStr", "CBytes", "EitherNoneCStr"}
 
 CONFIGS = {
     "Int": (lambda ex: Int(), ALL_KINDS),
@@ -353,9 +388,10 @@ CONFIGS = {
     "CInt": (lambda ex: CInt(), NUMERIC + TEXT + ["object", "tuple_1"]),
     "CFloat": (lambda ex: CFloat(), FNUM + TEXT + ["object"]),
     "CComplex": (lambda ex: CComplex(), FNUM + TEXT + ["object"]),
-    "CStr": (lambda ex: CStr(), ["none", "bool", "int", "float", "str", "strsub", "bytes", "object"]),
-    "CBytes": (lambda ex: CBytes(), ["none", "bool", "int", "str", "bytes", "list", "object"]),
-    "CBool": (lambda ex: CBool(), ["none", "bool", "int", "float", "complex", "str", "list", "object", "npbool"]),
+    "CStr": (lambda ex: CStr(), ["none", "bool", "int", "float", "str", "strsub", "bytes", "object", "strraises"]),
+    "CBytes": (lambda ex: CBytes(), ["none", "bool", "int", "str", "bytes", "list", "object", "bytesraises", "int1e30"]),
+    "CBool": (lambda ex: CBool(), ["none", "bool", "int", "float", "complex", "str", "list", "object", "npbool", "boolraises"]),
+    "EitherNoneCStr": (lambda ex: Either(None, CStr), ["none", "int", "str", "strraises"]),
     "RangeFloat": (cfg_range, FLOATISH + ["str", "object", "tuple_1"]),
     "RangeFloatConst": (cfg_range_const, INTISH),
     "EnumInts": (lambda ex: Enum(1, 2, 3), ["none", "bool", "int", "intsub", "float", "complex", "str", "object", "npint", "tuple_1"]),
@@ -379,8 +415,9 @@ CONFIGS = {
     "EitherAdaptInt": (lambda ex: Either(Instance(Tgt, adapt="yes", allow_none=False), Int), ["none", "src_ok", "src_no", "instTgt", "instU", "int", "bool"]),
     "EitherAdaptDefaultStr": (lambda ex: Either(Instance(Tgt, (), adapt="default", allow_none=False), Str), ["none", "src_ok", "src_no", "instTgt", "str"]),
     "EitherAdaptNoneOk": (lambda ex: Either(Instance(Tgt, adapt="yes"), Float), ["none", "src_ok", "src_no", "float"]),
-    "This": (lambda ex: This(), ["none", "instA", "instB", "instU", "instOwner", "int", "object"]),
-    "This_nonone": (lambda ex: This(allow_none=False), ["none", "instA", "instOwner", "instU"]),
+    "This": (lambda ex: This(), ["none", "instA", "instB", "instU", "instOwner", "instOwnerSub", "int", "object"]),
+    "This_nonone": (lambda ex: This(allow_none=False), ["none", "instA", "instOwner", "instOwnerSub", "instU"]),
+    "EitherThisInt": (lambda ex: Either(This, Int), ["none", "instOwner", "instOwnerSub", "instU", "int"]),
     "Callable": (lambda ex: Callable(), ["none", "callable", "classA", "int", "object", "instA"]),
     "Callable_nonone": (lambda ex: Callable(allow_none=False), ["none", "callable", "classA", "int", "object"]),
     "EitherIntStr": (lambda ex: Either(Int, Str), NUMERIC + TEXT + ["object"]),
@@ -495,9 +532,48 @@ def make_harness(cfgname, kind):
     return harness
 
 
+def fwd_harness(ex):
+    """a class named by a forward reference is resolved on first use, and the fast descriptor of the OWNING trait is rebuilt
+    then: before and after the resolution (whatever was assigned in between) the compiled validate of the class's own trait and
+    the Python validate of its handler agree - alone, inside a compound, inside a List"""
+    from traits.api import HasTraits, Str, List
+    shape = ex.choice("shape", 4)
+    tt_ = [lambda: Instance("FwdFoo"), lambda: Either(Str, Instance("FwdFoo")), lambda: Either(Instance("FwdFoo"), Int, None),
+           lambda: List(Instance("FwdFoo"))][shape]()
+    Holder = type("Holder", (HasTraits,), {"x": tt_, "__module__": __name__})
+    o = Holder()
+    wrap = (lambda v: [v]) if shape == 3 else (lambda v: v)
+    pool = [lambda: "s", lambda: 3, lambda: FwdFoo(), lambda: None, lambda: object()]
+    for step in range(3):
+        k = ex.choice("value%d" % step, len(pool))
+        v = wrap(pool[k]())
+        ct = o.trait("x")
+        h = ct.handler
+
+        def run(f):
+            try:
+                return ("ok", type(f(o, "x", v)).__name__)
+            except TraitError:
+                return ("TraitError",)
+            except Exception as e:
+                return (type(e).__name__,)
+        rf = run(ct.validate)
+        rp = run(h.validate)
+        ex.check(rf == rp, "the compiled validate of the owning trait and the Python validate of its handler agree, before and after "
+                           "a forward-referenced class is resolved")
+        try:
+            o.x = v                      # the history: assignments (this is what resolves the class)
+        except TraitError:
+            pass
+    return {"shape": shape}
+
+
 def obligations(tier, build):
     cenv.load_program(build)
-    obs = []
+    obs = [Obligation("forward-reference/histories", fwd_harness, stubs=[],
+                      bounds={"shapes": ["Instance('FwdFoo')", "Either(Str, Instance('FwdFoo'))", "Either(Instance('FwdFoo'), Int, None)",
+                                         "List(Instance('FwdFoo'))"], "history length": 3, "values": 5},
+                      leverage="choice feasibility only (class resolution is a concrete history)", max_paths=5000)]
     for cfg, (mk, kinds) in CONFIGS.items():
         for kind in kinds:
             obs.append(Obligation("%s/%s" % (cfg, kind), make_harness(cfg, kind), stubs=STUBS,
